@@ -819,7 +819,13 @@ class Control:
             o = self.off[c]
             o['started'] = True
             self.emit('start', c, k=o['k'])
-            real = o['thunk']()
+            try:
+                real = o['thunk']()
+            except BaseException as err:  # pylint: disable=broad-except
+                # the off-loop call could not even be handed over (i.e. BrokenProcessPool raised by submit): that is
+                # behaviour of the code under test - the caller's coroutine gets the exception, like from the real loop
+                real = self.loop.create_future()
+                real.set_exception(err)
 
             def finished(fut, c=c, o=o):
                 if self.off.get(c) is o:
@@ -1069,10 +1075,18 @@ async def main(plan, loop):
     inventory = make_inventory(descriptors, ctl)
     ctl.engine = _service.Engine(inventory, reg, io.Importer(c16_support.Feed()), processes=plan['processes'])
     out = {'rounds': []}
+    crash = None
     dog = base.Watchdog(plan.get('hang_s', 400), lambda: {
         'last': ctl.log[-3:], 'flags': dict(ctl.flags), 'events': [e for e in ctl.log if e['ev'] in ('arrive', 'answer')]})
     for rnd in plan['rounds']:
-        res = await ctl.round(rnd)
+        try:
+            res = await ctl.round(rnd)
+        except BaseException as err:  # pylint: disable=broad-except
+            # whatever escapes here came out of the engine through a hook of the controller: the round is abandoned and
+            # reported as a time-out (data); everything answered so far is still judged
+            import traceback
+            res = {'performed': [], 'lost': [], 'aborted': f'controller stopped by {type(err).__name__}: {err}'[:300],
+                   'traceback': traceback.format_exc()[-1500:]}
         res['wall'] = round(time.time() - ctl.t0, 3)
         res['upto'] = ctl.seq
         out['rounds'].append(res)
@@ -1150,8 +1164,13 @@ class C16(fw.Check):
             'and arrival offsets 0..25 ms, all fault kinds x 4 positions for batches of 4, the barrier-driven descriptor '
             'race, SERIAL sessions (one request at a time on forking pipelines, pool size 1 mostly: the whole session is one '
             'worker\'s history; a case = the session), GATEWAY sessions (the same batches through rest.Apply in a Starlette '
-            'application, in-process ASGI: status codes, media type, x-forml-instance), one fatal-exception session and one '
-            'after-stop session recorded as behaviour; a case = one batch.  (c) the listed witness of finding C16-F2 '
+            'application, in-process ASGI: status codes, media type, x-forml-instance), AFTERMATH sessions (two applications / two executors; for every fault '
+            'kind a concurrent batch [healthy on the same application, the failing request, healthy on the other application] '
+            'and then healthy requests on both, so that every fault kind is followed by healthy requests on every shared '
+            'resource it could poison: the wrapper\'s thread pool, its process pool, the per-instance executor; half of them '
+            'through the REST route), one fatal-exception session and one after-stop session recorded as behaviour; a case = '
+            'one batch.  Whatever exception class comes back from Engine.apply (also BrokenProcessPool, also one raised by '
+            'run_in_executor itself) is recorded per caller and judged.  (c) the listed witness of finding C16-F2 '
             '(COLD-FORK session: an executor created while another executor\'s thread re-imports forml, scheduled through '
             'os.register_at_fork and a sys.meta_path observer) is replayed on every run; thorough generates 4 more.  Every '
             'trace (arrive/answer events) must be accepted by the model driver (projection of a schedule of the locked '
@@ -1192,9 +1211,12 @@ class C16(fw.Check):
                    'every fork); the code before the lock is refuted by C16_descriptor_race_counterexample (fixed finding '
                    'C16-F1, replayed on every run), other reset disciplines by C16_worker_anyreset_counterexample / '
                    'C16_reset_counterexample',
-                   'finding C16-F2 (open; repair proposed in fixes/C16-unloaded-restore.diff): with forml.setup._importer as '
-                   'it exists "every caller is answered" holds only while no executor is created during another executor '
-                   'thread\'s re-import of forml (C16_coldfork_partial / _counterexample)']
+                   'finding C16-F2 (fixed, /repo 5c7b754): with forml.setup._importer before that repair "every caller is '
+                   'answered" held only while no executor was created during another executor thread\'s re-import of forml '
+                   '(C16_coldfork_partial / _counterexample); the cold-fork witness is replayed on every run',
+                   'error values travel back from the pool processes unchanged (plain exceptions with a message): checked on '
+                   'every run by pickling the real ones (coverage.error_transport); C16_respond_pool_isolation / '
+                   '_counterexample']
 
     def __init__(self, tier, seed):
         super().__init__(tier, seed)
@@ -1226,7 +1248,9 @@ class C16(fw.Check):
         request carries, in one of its rows, the number of the mapper branch that has to refuse it."""
         rng = self.rng
         app = rng.randrange(napps) if app is None else app
-        fan = max(1, (fans or [1] * napps)[app])
+        if fans is None:
+            raise fw.MachineryError('request generated without the fan-outs of the pipelines it may be sent to')
+        fan = max(1, fans[app])
         rows = rng.choice([1, 1, 1, 2, 3])
         token = 1000 + c  # unique per caller within the session
         delay = rng.choice(DELAYS if maxdelay is None else [d for d in DELAYS if d <= maxdelay])
@@ -1461,6 +1485,59 @@ class C16(fw.Check):
                     'scheduling': (hung.get('state') or {}).get('coldfork')}
         return None
 
+    def _aftermath_session(self, sid: str, gateway=False):
+        """every fault kind followed by healthy requests on EVERY shared resource it could poison: two applications
+        over two instances (two executors); for each kind a concurrent batch [healthy on the same application (being
+        computed), the failing request, healthy on the other application] and then a batch of healthy requests on both
+        applications - each healthy request goes through the wrapper's thread pool (descriptor, decoding), its
+        instance's executor (manager queues, pool, workers) and the wrapper's process pool (response encoding)."""
+        rng = self.rng
+        state = iter(rng.sample(range(1, 900), 2))
+        plan = {'sid': sid, 'kind': 'aftermath', 'processes': rng.choice([1, 2]), 'projects': [], 'apps': []}
+        for a in range(2):
+            plan['projects'].append({'name': f'p{a}', 'states': [next(state)], 'shape': rng.choice(SHAPES)})
+            plan['apps'].append({'name': f'app{a}', 'project': f'p{a}', 'generation': 1})
+        if gateway:
+            plan['gateway'] = True
+        fans = self._fans(plan)[0]
+        kinds = sorted(set(FAULTS))
+        rng.shuffle(kinds)
+        batches, c = [], 0
+        for fault in kinds + ['refused']:
+            x = rng.randrange(2)
+            first = [self._with_delay(self._request(c, 2, None, maxdelay=0, fans=fans, app=x), rng.choice([10, 20, 40])),
+                     self._request(c + 1, 2, fault, maxdelay=0, fans=fans, app=x,
+                                   branch=0 if fault == 'refused' else None),
+                     self._request(c + 2, 2, None, maxdelay=8, fans=fans, app=1 - x)]
+            first[1]['arrival_ms'] = rng.choice([0, 3, 7])
+            after = [self._request(c + 3, 2, None, maxdelay=0, fans=fans, app=x),
+                     self._request(c + 4, 2, None, maxdelay=0, fans=fans, app=1 - x)]
+            c += 5
+            batches += [{'requests': first, 'deadline_s': 90}, {'requests': after, 'deadline_s': 90}]
+        plan['batches'] = batches
+        return plan
+
+    def _aftermath_coverage(self, plan, trace):
+        """evidence: per fault kind, how many healthy requests were ANSWERED CORRECTLY after a request of that kind had
+        been answered - on the same executor and on another one (every healthy request also crosses the wrapper's
+        thread pool and process pool)."""
+        stat = self.extra.setdefault('healthy_after_fault', {})
+        of_app, _ = self._instances(plan)
+        reqs = {r['c']: r for b in plan['batches'] for r in b['requests']}
+        arrive = {e['c']: e['seq'] for e in trace['events'] if e['ev'] == 'arrive'}
+        answer = {e['c']: e for e in trace['events'] if e['ev'] == 'answer'}
+        for f, rf in reqs.items():
+            if not rf['fault'] or rf['fault'] == 'fatal' or f not in answer:
+                continue
+            inst = of_app[rf['appidx']] if rf['appidx'] < len(of_app) else None
+            rec = stat.setdefault(rf['fault'], {'requests': 0, 'healthy_after_same_executor': 0, 'healthy_after_other_executor': 0})
+            rec['requests'] += 1
+            for h, rh in reqs.items():
+                if rh['fault'] is None and h in answer and arrive.get(h, 0) > answer[f]['seq'] \
+                        and self._canon(plan, answer[h])[0] == 'value':
+                    same = inst is not None and of_app[rh['appidx']] == inst
+                    rec['healthy_after_same_executor' if same else 'healthy_after_other_executor'] += 1
+
     def _gateway_session(self, sid: str, nbatches: int):
         """the same kind of concurrent batches, sent through the REST route (rest.Apply in a Starlette application,
         in-process ASGI): application = path, content-type / accept headers, body; the answers are HTTP responses."""
@@ -1475,8 +1552,9 @@ class C16(fw.Check):
         answered before - recorded as behaviour, both are schedules of the model (lateSubmit / exit)."""
         projects = [{'name': 'p0', 'states': [4], 'shape': self.rng.choice(['s', 'ls'])}]
         apps = [{'name': 'app0', 'project': 'p0', 'generation': 1}]
-        reqs = [self._request(0, 1, None, maxdelay=0), self._request(1, 1, 'fatal'), self._request(2, 1, None, maxdelay=0),
-                self._request(3, 1, None, maxdelay=0)]
+        fans = self._fans({'projects': projects, 'apps': apps})[0]
+        reqs = [self._request(0, 1, None, maxdelay=0, fans=fans), self._request(1, 1, 'fatal', fans=fans),
+                self._request(2, 1, None, maxdelay=0, fans=fans), self._request(3, 1, None, maxdelay=0, fans=fans)]
         for r in reqs:
             r['arrival_ms'] = 0
         return {'sid': sid, 'kind': 'fatal', 'after_stop': True, 'projects': projects, 'apps': apps, 'processes': 1,
@@ -1506,7 +1584,8 @@ class C16(fw.Check):
         apps = [{'name': 'app0', 'project': 'p0', 'generation': 1}, {'name': 'app1', 'project': 'p0', 'generation': 1}]
         reqs = []
         for c in range(2):
-            r = self._request(c, 2, None, maxdelay=0, app=0 if same_app else c)
+            r = self._request(c, 2, None, maxdelay=0, app=0 if same_app else c,
+                              fans=self._fans({'projects': projects, 'apps': apps})[0])
             r['arrival_ms'] = 0
             reqs.append(r)
         return {'sid': sid, 'kind': 'race', 'projects': projects, 'apps': apps, 'processes': 2,
@@ -1517,12 +1596,14 @@ class C16(fw.Check):
         """a non-platform exception in one request (outside the fault class): recorded, not judged."""
         projects = [{'name': 'p0', 'states': [3], 'shape': self.rng.choice(['s', 'sl', 'lss'])}]
         apps = [{'name': 'app0', 'project': 'p0', 'generation': 1}]
-        first = [self._request(0, 1, None, maxdelay=0)]
-        mid = [self._request(1, 1, None, maxdelay=40), self._request(2, 1, 'fatal'), self._request(3, 1, None)]
+        fans = self._fans({'projects': projects, 'apps': apps})[0]
+        first = [self._request(0, 1, None, maxdelay=0, fans=fans)]
+        mid = [self._request(1, 1, None, maxdelay=40, fans=fans), self._request(2, 1, 'fatal', fans=fans),
+               self._request(3, 1, None, fans=fans)]
         mid[0]['delay'] = 40
         for i, r in enumerate(mid):
             r['arrival_ms'] = 5 * i
-        later = [self._request(4, 1, None, maxdelay=0)]
+        later = [self._request(4, 1, None, maxdelay=0, fans=fans)]
         return {'sid': sid, 'kind': 'fatal', 'projects': projects, 'apps': apps, 'processes': 1,
                 'batches': [{'requests': first, 'deadline_s': 60}, {'requests': mid, 'deadline_s': 8},
                             {'requests': later, 'deadline_s': 8}]}
@@ -1595,8 +1676,11 @@ class C16(fw.Check):
             return {'timeout': f'session did not finish within {SESSION_TIMEOUT} s and its watchdog did not report',
                     'stderr_tail': (err or '')[-3000:], 'events': [], 'batches': [], 'wall': wall}
         if line is None:
+            # the session script itself died: its own traceback (not the noise of the engine's children) says where
+            own = [b for b in (err or '').split('Traceback (most recent call last):')
+                   if 'c16_ctl.py' in b or 'c16_session.py' in b]
             raise fw.MachineryError(f"serving session {plan['sid']} produced no trace (rc={proc.returncode}): "
-                                    f"{(err or '')[-1500:]}")
+                                    f"{(own[-1][-2500:] if own else (err or '')[-1500:])}")
         trace = json.loads(line[len('C16-TRACE '):])
         trace['wall'] = wall
         return self._shape_ctl(plan, trace) if plan['kind'] == 'ctl' else trace
@@ -1704,6 +1788,8 @@ class C16(fw.Check):
                 return ('odd', f'{cls}: {msg[:80]}')
         if cls == 'RuntimeError' and 'Executor not running' in msg:
             return ('error', 'notRunning')
+        if cls == 'BrokenProcessPool':
+            return ('error', 'brokenPool')
         if cls == 'ValueError' and 'boom' in msg:
             return ('error', 'fatal')
         return ('odd', f'{cls}: {msg[:80]}')
@@ -1975,7 +2061,7 @@ class C16(fw.Check):
             observed = []
             for c in cs:
                 k = self._canon(plan, answers[c]) if c in answers else ('odd', 'unanswered')
-                if reqs[c]['fault'] == 'badAccept':
+                if reqs[c]['fault'] == 'badAccept' or k in (('error', 'brokenPool'), ('error', 'notRunning')):
                     observed.append(None)  # the task's own result is not visible in the answer
                 elif k[0] == 'value':
                     observed.append(['value', k[1], k[2]])
@@ -2105,6 +2191,18 @@ class C16(fw.Check):
             elif k[0] == 'value':
                 out.append((f'caller {c} with fault {r["fault"]} received a prediction instead of its platform error',
                             'failure-not-reported', d))
+            elif k == ('error', 'brokenPool'):
+                before = sorted((x for x in arrived if reqs[x]['fault'] and x != c
+                                 and answers.get(x) and answers[x][0]['seq'] <= got[0]['seq']),
+                                key=lambda x: answers[x][0]['seq'])
+                first = [x for x in before if self._canon(plan, answers[x][0]) == ('error', 'brokenPool')][:1]
+                out.append((f'caller {c} ({r["app"]}, {"healthy" if healthy else "fault=" + str(r["fault"])}) failed with '
+                            f'BrokenProcessPool: the process pool of Wrapper.respond, shared by all applications, is broken - a '
+                            f'platform-level failure did not fail alone ('
+                            + (f'the first call that came back broken was the failing request {first[0]}, fault='
+                               f'{reqs[first[0]]["fault"]}' if first else
+                               f'failing requests answered before: {[(x, reqs[x]["fault"]) for x in before][-4:]}') + ')',
+                            'isolation:respond-pool-broken', d))
             elif k == ('error', 'missingApp') and r['fault'] != 'unknownApp':
                 out.append((f'caller {c}: known application {r["app"]} reported as not found '
                             f'("{got[0]["msg"][:60]}") while another first request was updating the descriptor cache',
@@ -2245,6 +2343,8 @@ class C16(fw.Check):
             plans.append(self._serial_session(f'ser{i}', processes=1 if i == 0 else None))
         for i in range(self.n(1, 8)):  # through the REST gateway
             plans.append(self._gateway_session(f'gw{i}', self.n(2, 4)))
+        for i in range(self.n(1, 6)):  # every fault kind followed by healthy requests on every shared pool
+            plans.append(self._aftermath_session(f'after{i}', gateway=bool(i % 2)))
         if not self.quick:
             plans.append(self._positions_session('pos1'))
             plans.append(self._positions_session('pos2'))
@@ -2267,8 +2367,49 @@ class C16(fw.Check):
                                            processes=4 if i == 0 else [1, 2, 3][i % 3] if i < 4 else None))
         return plans
 
+    def _transport_tie(self):
+        """the model's assumption `Env.transportable = everything` (envOf) against the code: the platform errors the
+        engine produces in a pool process are pickled there and rebuilt in the engine process - do the real ones
+        survive that?  A class that does not is a divergence from the model (the sessions then show what it does to the
+        callers)."""
+        import pickle
+        report = {}
+        try:
+            import forml
+            from forml.io import layout
+            probes = {
+                'unsupported (no encoder: Wrapper._pack, process pool)':
+                    lambda: layout.get_encoder(layout.Encoding('c16/none'), layout.Encoding('c16/other')),
+                'unsupported (no decoder: Wrapper._dispatch, thread pool)': lambda: layout.get_decoder(layout.Encoding('c16/none')),
+                'missingFeatures / missingApp (forml.MissingError)': lambda: (_ for _ in ()).throw(forml.MissingError('c16')),
+                'invalid (forml.InvalidError, worker -> manager queue)': lambda: (_ for _ in ()).throw(forml.InvalidError('c16')),
+            }
+        except Exception as err:  # pylint: disable=broad-except
+            self.notes.append(f'transport tie not run: {type(err).__name__}: {err}')
+            return
+        for what, raiser in probes.items():
+            try:
+                raiser()
+                report[what] = 'no exception raised'
+                continue
+            except BaseException as err:  # pylint: disable=broad-except
+                original = err
+            try:
+                back = pickle.loads(pickle.dumps(original))
+                same = type(back) is type(original) and str(back) == str(original)
+                report[what] = 'transportable' if same else f'changed in transport: {type(back).__name__}({back})'
+            except BaseException as err:  # pylint: disable=broad-except
+                report[what] = f'NOT transportable: {type(original).__name__}({original}) -> {type(err).__name__}: {err}'[:300]
+        self.extra['error_transport'] = report
+        broken = {k: v for k, v in report.items() if v != 'transportable'}
+        if broken:
+            self.diverge('the model takes every platform error value for transportable across the pool-process boundaries '
+                         '(C16_respond_pool_isolation); these are not: ' + json.dumps(broken), {'kind': 'transport'},
+                         broken, 'transportable')
+
     def correspondence(self):
         try:
+            self._transport_tie()
             plans = self._plans()
             race = [self._race_session('race-same', True), self._race_session('race-two', False)]
             fatal = self._fatal_session('fatal')
@@ -2307,6 +2448,7 @@ class C16(fw.Check):
                                  if any(r['c'] == (detail or {}).get('c') for r in b['requests'])), len(plan['batches']) - 1)
                     size = sum(len(b['requests']) for b in plan['batches'][:upto + 1])
                     found.append((size + 1000 * (plan['kind'] != 'ctl'), len(found), what, sig, detail, plan, trace))
+                self._aftermath_coverage(plan, trace)
                 if trace.get('timeout'):
                     continue
                 if plan['kind'] == 'race':
@@ -2505,6 +2647,8 @@ class C16(fw.Check):
                 plans.append(self._session(f'wide{i}', 4, faultrate=0.4))
             for i in range(self.n(3, 12)):
                 plans.append(self._serial_session(f'wser{i}'))
+            for i in range(self.n(2, 6)):
+                plans.append(self._aftermath_session(f'wafter{i}', gateway=bool(i % 2)))
             traces = self._run_sessions(plans, parallel=5)
             for plan, trace in zip(plans, traces):
                 for what, sig, detail in self._oracle(plan, trace):
